@@ -169,6 +169,7 @@ fn run_with_snapshots(c: &Case, word: &[HOp], snaps_root: &Path, abort_at: Optio
         g.abort_at = abort_at.filter(|k| *k < SYS_BASE);
         if crate::hooks::shim_available() {
             g.sys_dir = Some(dir.clone());
+            g.sys_armed = true;
             g.abort_at_sys = abort_at.filter(|k| *k >= SYS_BASE).map(|k| k - SYS_BASE);
         }
         if abort_at.is_none() && crate::hooks::shim_available() {
@@ -179,6 +180,10 @@ fn run_with_snapshots(c: &Case, word: &[HOp], snaps_root: &Path, abort_at: Optio
             let clock = Arc::clone(&env.clock);
             let last_sig = Arc::clone(&last_sig);
             g.on_sys = Some(Box::new(move |op, n, _path| {
+                // (listing a directory changes nothing: not a crash point)
+                if op == "sys:opendir" {
+                    return;
+                }
                 let sig = dir_signature(&dir);
                 let mut ls = last_sig.lock().unwrap();
                 if ls.as_ref() == Some(&sig) {
